@@ -227,8 +227,10 @@ def run(ctx):
     ctx.assumptions += [
         "same_ver: no cache file built by different loader code under the same INTERNAL_VERSION exists initially (Inv s0); "
         "theorem same_ver_hypothesis_needed shows it cannot be dropped",
-        "edits of a model file do not fall between a load's parse and the hash it takes for the cache write (quiet); "
-        "load_refines_parse_unguarded_refuted shows the code is not safe against that",
+        "only for code that hashes the model file again for the cache write (w_rehash, see coverage.rehash_in_source): edits "
+        "of a model file do not fall between a load's parse and that hash (quiet; load_refines_parse_unguarded_refuted shows "
+        "such code is not safe against it); for code that keys the cache by the parsed bytes load_refines_parse_full and "
+        "current_code_safe need no restriction on edits",
         "kill timing is sampled at the byte classes {0, header, mid-stream, last byte missing, complete-not-renamed}; "
         "racing schedules of real processes are whatever the OS produced",
     ]
@@ -236,6 +238,7 @@ def run(ctx):
     ctx.compile_theorems("Props/C17.v")
     hook = H.hook_present()
     ctx.coverage["crash_hook_present"] = hook
+    ctx.coverage["rehash_in_source"] = H.rehash_in_source()
     if not hook:
         ctx.log("crash-at-byte hook not present in this tree: killed-writer histories are replaced by planted truncations")
     try:
